@@ -63,3 +63,19 @@ PROPS['C08']={
  'bounds_statement':'in_toto_verify from MIR with a ghost event log behind the two side-effecting calls (in_toto_run, fs::write): every combination of stage failures (owner signature, expiry, missing / badly signed link, failing step rule) x inspection outcomes (spawn error, any i32 exit status, products, inspection rules) within the shape bound.',
  'assumptions':PIPE_ASSUME+['the inspection subprocess and the files it touches are outside the claim; the stub returns what runlib documents: Err or a link with Some(exit status)'],
  'obligations':[{'name':'inspections','module':'harness.C08','cls':'Inspections','quick':{'ninsp':1},'thorough':{'ninsp':2}}]}
+
+UNIT_ASSUME=['std/dependency calls replaced by the listed models (coverage.trusted_base); every run replays sampled paths natively against the real crate and compares outcomes',
+             'dev-profile arithmetic (overflow checks on): an overflow is a panic; the release profile wraps instead']
+PROPS['C20']={
+ 'bounds_statement':'PaeV1::pae_pack / pae_unpack / consume_load_len from MIR: every type string (<= 3 bytes) and payload (<= 4 bytes) for the round trip; two independent pairs for injectivity; every input of "DSSEv1 " + <= 8 bytes, every <= 8-byte input without the prefix, and inputs whose length field is usize::MAX, for totality of decoding.',
+ 'assumptions':UNIT_ASSUME+['format!/Display of usize and str modelled precisely from the format_args! byte-code; str::parse::<usize> modelled (optional +, digits, overflow)'],
+ 'obligations':[
+  {'name':'roundtrip','module':'harness.C20','cls':'RoundTrip','quick':{'max_t':3,'max_p':4},'thorough':{'max_t':5,'max_p':6}},
+  {'name':'injective','module':'harness.C20','cls':'Injective','quick':{'max_t':2,'max_p':3},'thorough':{'max_t':3,'max_p':4}},
+  {'name':'unpack_prefix','module':'harness.C20','cls':'UnpackTotal','quick':{'n':6,'shape':'prefix'},'thorough':{'n':9,'shape':'prefix'}},
+  {'name':'unpack_free','module':'harness.C20','cls':'UnpackTotal','quick':{'n':7,'shape':'free'},'thorough':{'n':8,'shape':'free'}},
+  {'name':'unpack_maxlen','module':'harness.C20','cls':'UnpackTotal','quick':{'n':2,'shape':'maxlen'},'thorough':{'n':3,'shape':'maxlen'}},
+  {'name':'unpack_maxlen2','module':'harness.C20','cls':'UnpackTotal','quick':{'n':2,'shape':'maxlen2'},'thorough':{'n':3,'shape':'maxlen2'}},
+ ]}
+
+HOOK_COMMITS=['5414ff1']
